@@ -14,12 +14,19 @@ every use of a type name in the declarations generated for the source item `it` 
 back end spells the leaf `reconcile` left there) together with the Rust-level thing it refers to.
 
 * `C09_reconcile_leaves`, `C09_reconcile_names` — what `reconcile` does to references.
-* `C09_full` — the property at full strength; **false** on the pinned tree (`C09_not_full`).
-* `Known_generic_head`, `Known_def_original`, `Known_parent`, `Known_inner` (per reference) and
-  `Known_shadow` (per program): the decidable classes in which it fails.
+* `C09_full` — the property at full strength; still **false** (`C09_not_full`: Go defines a renamed
+  enum under its Rust name).
+* `Known_def_original` (per reference: a reference to a renamed *Go enum*) and `Known_shadow` (per
+  program): the decidable classes in which it fails.  The classes `Known_generic_head`,
+  `Known_parent`, `Known_inner` of the previous round are repaired (`fix:` commits 821da1d, 03e02a1)
+  and `Known_def_original` has shrunk from "Kotlin / Scala / Go aliases and Go enums" to Go enums
+  (b182a80); their old witnesses are positive regression examples now (`repaired_*`).
 * `C09_partial` — outside them it holds, for all six back ends and every prefix;
-  `C09_exact` / `C09_converse` — and inside the four per-reference classes it always fails.
-* `C09_no_renames`, `C09_swift_python_typescript`, `C09_generic_parameters` — the corollaries.
+  `C09_exact` / `C09_converse` — and inside the per-reference class it always fails.
+* `C09_no_renames`, `C09_all_but_go`, `C09_go_without_renamed_enums`, `C09_generic_heads`,
+  `C09_generic_parameters` — the corollaries.
+* Not covered by `C09_full` (single-file programs): the Kotlin multi-file finding
+  `kotlin_import_without_prefix`, which stays open.
 -/
 namespace TsV.C09
 open TsV TsV.Pipeline TsV.Generate
@@ -83,6 +90,14 @@ def wGe : RustStruct := mkStruct s%"Ge" (some s%"GenNew") [s%"T"] [fld s%"v" (.s
 def wUserG : RustStruct := mkStruct s%"User" none [] [fld s%"g" (.generic s%"Ge" [.prim .string])]
 def W_generic : ParsedData := { structs := [wGe, wUserG] }
 
+/-- `#[serde(rename = "GnNew", tag = "t", content = "c")] enum Gn<T> { A(T) }  struct User { g: Gn<String> }` -/
+def wGn : RustEnum :=
+  { keys := some (s%"t", s%"c"), id := mkId s%"Gn" (some s%"GnNew"), genericTypes := [s%"T"], comments := [],
+    variants := [.tuple (mkId s%"A" none) [] (.simple s%"T")], decorators := {},
+    isRecursive := false, isRedacted := false }
+def wUserGn : RustStruct := mkStruct s%"User" none [] [fld s%"g" (.generic s%"Gn" [.prim .string])]
+def W_genericEnum : ParsedData := { structs := [wUserGn], enums := [wGn] }
+
 /-- `#[serde(rename = "TNew")] struct T { z: u8 }  struct Holder<T> { t: T }` -/
 def wT : RustStruct := mkStruct s%"T" (some s%"TNew") [] [fld s%"z" (.prim .u8)]
 def wHolder : RustStruct := mkStruct s%"Holder" none [s%"T"] [fld s%"t" (.simple s%"T")]
@@ -100,6 +115,7 @@ theorem W_alias_inScope : InScope W_alias := inScope_of _ (by decide) (by decide
 theorem W_unit_inScope : InScope W_unit := inScope_of _ (by decide) (by decide) (by decide) (by decide) rfl rfl
 theorem W_enum_inScope : InScope W_enum := inScope_of _ (by decide) (by decide) (by decide) (by decide) rfl rfl
 theorem W_generic_inScope : InScope W_generic := inScope_of _ (by decide) (by decide) (by decide) (by decide) rfl rfl
+theorem W_genericEnum_inScope : InScope W_genericEnum := inScope_of _ (by decide) (by decide) (by decide) (by decide) rfl rfl
 theorem W_shadow_inScope : InScope W_shadow := inScope_of _ (by decide) (by decide) (by decide) (by decide) rfl rfl
 theorem W_good_inScope : InScope W_good := inScope_of _ (by decide) (by decide) (by decide) (by decide) rfl rfl
 
@@ -120,16 +136,16 @@ theorem cfgOk_all : ∀ lc ∈ allLangs, CfgOk lc := by
 
 /-! ## the pipeline part: what `reconcile` does to references -/
 
-/-- **`reconcile` rewrites exactly the `simple` leaves**: in a single-file run the leaves of a
-reconciled type are the leaves of the source type, a plain leaf `id` replaced by `recName … id`, the
-head of a generic application left as written (the root of `Known_generic_head`) -/
+/-- **`reconcile` rewrites every name in a type**: in a single-file run the leaves of a reconciled
+type are the leaves of the source type, each `id` — a plain leaf or (since the `fix:` commit 821da1d)
+the head of a generic application — replaced by `recName … id` -/
 theorem C09_reconcile_leaves (P : ParsedData) (hs : InScope P) (ty : RustType) :
     leaves (checkType [] (renamesOf P) P.importTypes ty) =
-      (leaves ty).map fun l => if l.head then l else ⟨recName (renamesOf P) l.id, false⟩ := by
+      (leaves ty).map fun l => ⟨recName (renamesOf P) l.id, l.head⟩ := by
   rw [hs.single, leaves_checkType]
   rfl
 
-/-- **… to the `serde(rename)` name of the item they name**: a plain leaf naming an item of the
+/-- **… to the `serde(rename)` name of the item they name**: a leaf naming an item of the
 program carries that item's (re)name afterwards; a leaf naming no renamed item is unchanged -/
 theorem C09_reconcile_names (P : ParsedData) (hs : InScope P) :
     (∀ t ∈ typeItems P, recName (renamesOf P) (itemId t).original = (itemId t).renamed) ∧
@@ -137,36 +153,36 @@ theorem C09_reconcile_names (P : ParsedData) (hs : InScope P) :
       recName (renamesOf P) id = id) :=
   ⟨fun _ ht => renamed_of_scope hs ht, fun _ h => recName_other h⟩
 
-/-! ## the property is false on the pinned tree -/
+/-! ## the property is still false -/
 
-/-- **`C09_full` does not hold**: Kotlin defines the renamed alias `Al` as `typealias Al` and refers
-to it as `AliasNew` -/
+/-- **`C09_full` does not hold**: Go defines the renamed enum `Un` as `type Un string` and refers to it
+as `UnitNew` -/
 theorem C09_not_full : ¬ C09_full := by
   intro h
-  have := h W_alias W_alias_inScope kt0 (cfgOk_all _ (by simp [allLangs])) (.struct wUserA) (by simp [typeItems, W_alias])
-    ⟨s%"AliasNew", .type s%"Al", false⟩ (by decide +kernel) s%"Al" ⟨.alias wAlias, by simp [typeItems, W_alias], rfl, rfl⟩
+  have := h W_unit W_unit_inScope go0 (cfgOk_all _ (by simp [allLangs])) (.struct wUserU) (by simp [typeItems, W_unit])
+    ⟨s%"UnitNew", .type s%"Un", false⟩ (by decide +kernel) s%"Un" ⟨.enum wUnit, by simp [typeItems, W_unit], rfl, rfl⟩
   exact absurd this (by decide)
 
 /-! ## the exact characterisation -/
 
 /-- **C09, partial**: in every program in scope in which no generic parameter shadows a renamed
-item, every reference outside the four `Known_*` classes is spelled with the name its target is
-defined under — all six back ends, every prefix; generic parameters are spelled unchanged -/
+item, every reference outside `Known_def_original` (= `KnownRef`: a reference to a renamed Go enum)
+is spelled with the name its target is defined under — all six back ends, every prefix; generic parameters are spelled unchanged -/
 theorem C09_partial : ∀ P : ParsedData, InScope P → ∀ lc : LangCfg, CfgOk lc → Known_shadow P = false →
     ∀ it ∈ typeItems P, ∀ ref ∈ refs lc (renamesOf P) it, KnownRef lc P ref = false →
     ∀ n, Defines lc P ref.target n → ref.spelling = n :=
   fun _ hs _ hc hsh _ hit _ href hk _ hd => (ref_exact hs hc.1 hsh hit href hd).2 hk
 
 /-- **C09, exact**: … and a reference to something the program defines is consistent *only* outside
-the `Known_*` classes -/
+`KnownRef` -/
 theorem C09_exact : ∀ P : ParsedData, InScope P → ∀ lc : LangCfg, CfgOk lc → Known_shadow P = false →
     ∀ it ∈ typeItems P, ∀ ref ∈ refs lc (renamesOf P) it, ∀ n, Defines lc P ref.target n →
     (ref.spelling = n ↔ KnownRef lc P ref = false) :=
   fun _ hs _ hc hsh _ hit _ href _ hd => ref_exact hs hc.1 hsh hit href hd
 
-/-- **C09, converse**: a reference in a `Known_*` class refers to something the program defines
-(`defines_of_known`), under a different name than the one it is spelled with: every `Known_*` class
-really is a class of failures -/
+/-- **C09, converse**: a reference in the known class refers to something the program defines
+(`defines_of_known`), under a different name than the one it is spelled with: the class really is a
+class of failures -/
 theorem C09_converse : ∀ P : ParsedData, InScope P → ∀ lc : LangCfg, CfgOk lc → Known_shadow P = false →
     ∀ it ∈ typeItems P, ∀ ref ∈ refs lc (renamesOf P) it, KnownRef lc P ref = true →
     (∃ n, Defines lc P ref.target n) ∧ ∀ n, Defines lc P ref.target n → ref.spelling ≠ n := by
@@ -176,7 +192,7 @@ theorem C09_converse : ∀ P : ParsedData, InScope P → ∀ lc : LangCfg, CfgOk
   rw [hk] at this; cases this
 
 /-- program level: without shadowing, a program is consistent exactly when none of its references is
-in a `Known_*` class -/
+in the known class -/
 theorem C09_program_exact (P : ParsedData) (hs : InScope P) (lc : LangCfg) (hc : CfgOk lc)
     (hsh : Known_shadow P = false) :
     Consistent lc P ↔ ∀ it ∈ typeItems P, ∀ ref ∈ refs lc (renamesOf P) it, KnownRef lc P ref = false := by
@@ -210,30 +226,46 @@ theorem C09_no_renames (P : ParsedData) (hs : InScope P)
     simp [Renamed, hs.ids t ht (hr t ht)]
   exact (C09_program_exact P hs lc hc hsh).2 fun _ _ ref _ => knownRef_false_of_not_renamed lc P hren ref
 
-def isSwiftPythonTypeScript : LangCfg → Bool
-  | .swift _ => true
-  | .python _ => true
-  | .typescript _ => true
+def isGo : LangCfg → Bool
+  | .go _ => true
   | _ => false
 
-/-- **(b) with renames, Swift, Python and TypeScript are consistent for every reference that is not
-the head of a generic application** (field types, payloads, generic *arguments*, alias targets,
-helper structs) -/
-theorem C09_swift_python_typescript (P : ParsedData) (hs : InScope P) (lc : LangCfg) (hc : CfgOk lc)
-    (hl : isSwiftPythonTypeScript lc = true) (hsh : Known_shadow P = false) :
-    ∀ it ∈ typeItems P, ∀ ref ∈ refs lc (renamesOf P) it, ref.head = false →
-    ∀ n, Defines lc P ref.target n → ref.spelling = n := by
-  intro it hit ref href hh n hd
-  apply C09_partial P hs lc hc hsh it hit ref href _ n hd
-  have hdu : ∀ t, defUsesOriginal lc t = false := by
-    intro t
-    cases lc <;> simp [isSwiftPythonTypeScript] at hl <;> cases t <;> rfl
-  have hks : isKotlinOrScala lc = false := by
-    cases lc <;> simp [isSwiftPythonTypeScript] at hl <;> rfl
-  obtain ⟨sp, tg, hd'⟩ := ref
-  simp only at hh
-  subst hh
-  cases tg <;> simp [KnownRef, Known_generic_head, Known_def_original, Known_parent, Known_inner, hdu, hks]
+/-- **(b) with renames, TypeScript, Swift, Python, Kotlin and Scala are consistent in full** — field
+types, payloads, generic heads and arguments, alias targets, parent classes, helper structs, every
+prefix — in every program without shadowing.  (Before the `fix:` commits 821da1d / b182a80 / 03e02a1
+this held for Swift, Python and TypeScript only, and only off generic heads.) -/
+theorem C09_all_but_go (P : ParsedData) (hs : InScope P) (lc : LangCfg) (hc : CfgOk lc)
+    (hl : isGo lc = false) (hsh : Known_shadow P = false) : Consistent lc P :=
+  (C09_program_exact P hs lc hc hsh).2 fun _ _ ref _ =>
+    knownRef_false_of_not_go lc (fun c h => by subst h; cases hl) P ref
+
+/-- **(c) Go is consistent in full when no *enum* is renamed** (structs and aliases may be) -/
+theorem C09_go_without_renamed_enums (P : ParsedData) (hs : InScope P) (lc : LangCfg) (hc : CfgOk lc)
+    (he : ∀ e ∈ P.enums, e.id.renamed = e.id.original) (hsh : Known_shadow P = false) : Consistent lc P :=
+  (C09_program_exact P hs lc hc hsh).2 fun _ _ ref _ => knownRef_false_of_no_renamed_enum lc P he ref
+
+/-- **(d) what is left**: an inconsistent reference is printed by the Go back end and names a
+`serde(rename)`d enum of the program -/
+theorem C09_failures_are_go_enums (P : ParsedData) (hs : InScope P) (lc : LangCfg) (hc : CfgOk lc)
+    (hsh : Known_shadow P = false) :
+    ∀ it ∈ typeItems P, ∀ ref ∈ refs lc (renamesOf P) it, ∀ n, Defines lc P ref.target n → ref.spelling ≠ n →
+      isGo lc = true ∧ ∃ o, ref.target = .type o ∧ ∃ e ∈ P.enums, e.id.original = o ∧ e.id.renamed ≠ e.id.original := by
+  intro it hit ref href n hd hne
+  have hk : KnownRef lc P ref = true := by
+    cases hk : KnownRef lc P ref with
+    | true => rfl
+    | false => exact absurd (C09_partial P hs lc hc hsh it hit ref href hk n hd) hne
+  obtain ⟨⟨c, rfl⟩, h⟩ := known_is_go_enum lc P ref hk
+  exact ⟨rfl, h⟩
+
+/-- **the head of a generic application is renamed like a plain reference** (the repaired class
+`generic-head-not-renamed`): it is spelled with the name its target is defined under, in all six back
+ends, unless it names a renamed Go enum -/
+theorem C09_generic_heads (P : ParsedData) (hs : InScope P) (lc : LangCfg) (hc : CfgOk lc)
+    (hsh : Known_shadow P = false) :
+    ∀ it ∈ typeItems P, ∀ ref ∈ refs lc (renamesOf P) it, ref.head = true →
+    Known_def_original lc P ref = false → ∀ n, Defines lc P ref.target n → ref.spelling = n :=
+  fun it hit ref href _ hk n hd => C09_partial P hs lc hc hsh it hit ref href hk n hd
 
 /-- **generic parameters are never prefixed or renamed** (unless one shadows a renamed item) -/
 theorem C09_generic_parameters (P : ParsedData) (hs : InScope P) (lc : LangCfg) (hc : CfgOk lc)
@@ -254,39 +286,95 @@ def hasRef (lc : LangCfg) (P : ParsedData) (it : RustItem) (sp : Str) (tg : Targ
     (cls : LangCfg → ParsedData → Ref → Bool) : Bool :=
   (refs lc (renamesOf P) it).any fun r => r.spelling == sp && r.target == tg && r.head == hd && cls lc P r
 
-/-- Kotlin, Scala and Go refer to the renamed alias as `AliasNew` and define `Al` -/
-theorem known_def_original_alias :
-    [kt0, sc0, go0].all (fun lc =>
-      hasRef lc W_alias (.struct wUserA) s%"AliasNew" (.type s%"Al") false Known_def_original &&
-      defName lc (.alias wAlias) == s%"Al") = true := by decide +kernel
-
-/-- with a prefix: `OPAliasNew` against `typealias OPAl` -/
-theorem known_def_original_alias_prefix :
-    (hasRef ktOP W_alias (.struct wUserA) s%"OPAliasNew" (.type s%"Al") false Known_def_original &&
-      defName ktOP (.alias wAlias) == s%"OPAl") = true := by decide +kernel
-
 /-- Go refers to the renamed enum as `UnitNew` and defines `Un` -/
 theorem known_def_original_go_enum :
     (hasRef go0 W_unit (.struct wUserU) s%"UnitNew" (.type s%"Un") false Known_def_original &&
       defName go0 (.enum wUnit) == s%"Un") = true := by decide +kernel
 
-/-- Kotlin and Scala: the cases extend `En`, the sealed class / trait is `EnumNew` -/
-theorem known_parent_witness :
-    [kt0, sc0].all (fun lc =>
-      hasRef lc W_enum (.enum wEnum) s%"En" (.parent s%"En") false Known_parent &&
-      defName lc (.enum wEnum) == s%"EnumNew") = true := by decide +kernel
+/-- … also at the head of a generic application: `Gn<String>` is printed `GnNew[string]`, Go defines `Gn` -/
+theorem known_def_original_go_enum_head :
+    (hasRef go0 W_genericEnum (.struct wUserGn) s%"GnNew" (.type s%"Gn") true Known_def_original &&
+      defName go0 (.enum wGn) == s%"Gn") = true := by decide +kernel
 
-/-- Kotlin and Scala: the content of `A` is `EnAInner`, the helper is defined as `EnumNewAInner` -/
-theorem known_inner_witness :
-    [kt0, sc0].all (fun lc =>
-      hasRef lc W_enum (.enum wEnum) s%"EnAInner" (.inner s%"En" s%"A") false Known_inner &&
-      innerDefName lc wEnum s%"A" == some s%"EnumNewAInner") = true := by decide +kernel
+/-! ## the repaired classes: their old witnesses are consistent now (kernel-checked regressions) -/
 
-/-- all six back ends print `Ge<String>` and define `GenNew` -/
-theorem known_generic_head_witness :
-    [ts0, kt0, sw0, sc0, go0, py0].all (fun lc =>
-      hasRef lc W_generic (.struct wUserG) s%"Ge" (.type s%"Ge") true Known_generic_head &&
-      defName lc (.struct wGe) == s%"GenNew") = true := by decide +kernel
+/-- is every reference of the program spelled with the name its target is defined under?  (`Defines`
+evaluated: the first item / enum of that Rust name) -/
+def consistentB (lc : LangCfg) (P : ParsedData) : Bool :=
+  (typeItems P).all fun it => (refs lc (renamesOf P) it).all fun r =>
+    match r.target with
+    | .type o => (typeItems P).all fun t => (itemId t).original != o || r.spelling == defName lc t
+    | .param g => r.spelling == g
+    | .parent o => P.enums.all fun e => e.id.original != o || r.spelling == defName lc (.enum e)
+    | .inner o v => P.enums.all fun e => e.id.original != o || innerDefName lc e v == some r.spelling
+
+theorem consistentB_sound {lc : LangCfg} {P : ParsedData} (h : consistentB lc P = true) : Consistent lc P := by
+  intro it hit ref href n hd
+  have hr := List.all_eq_true.1 (List.all_eq_true.1 h it hit) ref href
+  obtain ⟨sp, tg, hd'⟩ := ref
+  cases tg with
+  | type o =>
+    obtain ⟨t, ht, ho, rfl⟩ := hd
+    have := List.all_eq_true.1 hr t ht
+    simpa [ho] using this
+  | param g =>
+    simp only [Defines] at hd
+    subst hd
+    simpa using hr
+  | parent o =>
+    obtain ⟨e, he, ho, rfl⟩ := hd
+    have := List.all_eq_true.1 hr e he
+    simpa [ho] using this
+  | inner o v =>
+    obtain ⟨e, he, ho, hn⟩ := hd
+    have := List.all_eq_true.1 hr e he
+    simp only [ho, bne_self_eq_false, Bool.false_or, hn, beq_iff_eq, Option.some.injEq] at this
+    exact this.symm
+
+/-- **repaired `definition-under-original-name` (aliases, b182a80)**: Kotlin, Scala and Go define the
+renamed alias as `AliasNew`, the name they refer to it by; the whole program is consistent in all
+eight configurations -/
+theorem repaired_alias_definition :
+    ([kt0, sc0, go0].all (fun lc =>
+      hasRef lc W_alias (.struct wUserA) s%"AliasNew" (.type s%"Al") false (fun _ _ _ => true) &&
+      defName lc (.alias wAlias) == s%"AliasNew") &&
+     (hasRef ktOP W_alias (.struct wUserA) s%"OPAliasNew" (.type s%"Al") false (fun _ _ _ => true) &&
+      defName ktOP (.alias wAlias) == s%"OPAliasNew") &&
+     allLangs.all fun lc => consistentB lc W_alias) = true := by decide +kernel
+
+/-- **repaired `parent-class-original-name` (03e02a1)**: the cases extend `EnumNew`, the name of the
+sealed class / trait -/
+theorem repaired_parent_class :
+    ([kt0, sc0].all (fun lc =>
+      hasRef lc W_enum (.enum wEnum) s%"EnumNew" (.parent s%"En") false (fun _ _ _ => true) &&
+      defName lc (.enum wEnum) == s%"EnumNew") &&
+     (hasRef ktOP W_enum (.enum wEnum) s%"OPEnumNew" (.parent s%"En") false (fun _ _ _ => true) &&
+      defName ktOP (.enum wEnum) == s%"OPEnumNew")) = true := by decide +kernel
+
+/-- **repaired `inner-struct-original-name` (03e02a1)**: the content of `A` is `EnumNewAInner`, the
+name the helper is defined under; the whole program is consistent in all eight configurations -/
+theorem repaired_inner_struct :
+    ([kt0, sc0].all (fun lc =>
+      hasRef lc W_enum (.enum wEnum) s%"EnumNewAInner" (.inner s%"En" s%"A") false (fun _ _ _ => true) &&
+      innerDefName lc wEnum s%"A" == some s%"EnumNewAInner") &&
+     allLangs.all fun lc => consistentB lc W_enum) = true := by decide +kernel
+
+/-- **repaired `generic-head-not-renamed` (821da1d)**: all six back ends print `GenNew<String>` and
+define `GenNew`; the whole program is consistent in all eight configurations -/
+theorem repaired_generic_head :
+    ([ts0, kt0, sw0, sc0, go0, py0].all (fun lc =>
+      hasRef lc W_generic (.struct wUserG) s%"GenNew" (.type s%"Ge") true (fun _ _ _ => true) &&
+      defName lc (.struct wGe) == s%"GenNew") &&
+     allLangs.all fun lc => consistentB lc W_generic) = true := by decide +kernel
+
+theorem repaired_consistent :
+    ∀ lc ∈ allLangs, Consistent lc W_alias ∧ Consistent lc W_enum ∧ Consistent lc W_generic := by
+  intro lc hlc
+  have h1 := repaired_alias_definition
+  have h2 := repaired_inner_struct
+  have h3 := repaired_generic_head
+  simp only [Bool.and_eq_true, List.all_eq_true] at h1 h2 h3
+  exact ⟨consistentB_sound (h1.2 lc hlc), consistentB_sound (h2.2 lc hlc), consistentB_sound (h3.2 lc hlc)⟩
 
 /-- all six back ends print the generic parameter `T` of `Holder<T>` as `TNew` -/
 theorem known_shadow_witness :
@@ -311,19 +399,20 @@ def E0 : Ext := { U := .ascii, parseType := fun _ => none }
 not evaluated here: it does not change any text, only the order of the declarations) -/
 def itemsOf (d : ParsedData) : List RustItem := d.aliases.map .alias ++ d.structs.map .struct ++ d.enums.map .enum
 
-/-- the model's Kotlin output for `W_alias` after `reconcile`: `typealias Al` next to `val a: AliasNew` -/
+/-- the model's Kotlin output for `W_alias` after `reconcile`: `typealias AliasNew` next to
+`val a: AliasNew` (was `typealias Al` before b182a80) -/
 theorem kotlin_text_alias :
     (Lang.Kotlin.itemsFacts {} (itemsOf (reconcileOne (renamesOf W_alias) [] W_alias))).bind
         (fun ds => .ok (ds.flatMap Lang.Kotlin.renderDecl)) =
-      .ok s%"typealias Al = String\n\n@Serializable\ndata class User (\n\tval a: AliasNew\n)\n\n" := by
+      .ok s%"typealias AliasNew = String\n\n@Serializable\ndata class User (\n\tval a: AliasNew\n)\n\n" := by
   decide +kernel
 
-/-- the model's Kotlin output for `W_enum`: `sealed class EnumNew`, cases `: En()`, content `EnAInner`,
-helper `data class EnumNewAInner` -/
+/-- the model's Kotlin output for `W_enum`: `sealed class EnumNew`, cases `: EnumNew()`, content
+`EnumNewAInner`, helper `data class EnumNewAInner` (were `: En()` and `EnAInner` before 03e02a1) -/
 theorem kotlin_text_enum :
     (Lang.Kotlin.itemsFacts {} (itemsOf (reconcileOne (renamesOf W_enum) [] W_enum))).bind
         (fun ds => .ok (ds.flatMap Lang.Kotlin.renderDecl)) =
-      .ok s%"/// Generated type representing the anonymous struct variant `A` of the `En` Rust enum\n@Serializable\ndata class EnumNewAInner (\n\tval x: UByte\n)\n\n@Serializable\nsealed class EnumNew {\n\t@Serializable\n\t@SerialName(\"A\")\n\tdata class A(val c: EnAInner): En()\n\t@Serializable\n\t@SerialName(\"B\")\n\tdata class B(val c: String): En()\n\t@Serializable\n\t@SerialName(\"C\")\n\tobject C: En()\n}\n\n" := by
+      .ok s%"/// Generated type representing the anonymous struct variant `A` of the `En` Rust enum\n@Serializable\ndata class EnumNewAInner (\n\tval x: UByte\n)\n\n@Serializable\nsealed class EnumNew {\n\t@Serializable\n\t@SerialName(\"A\")\n\tdata class A(val c: EnumNewAInner): EnumNew()\n\t@Serializable\n\t@SerialName(\"B\")\n\tdata class B(val c: String): EnumNew()\n\t@Serializable\n\t@SerialName(\"C\")\n\tobject C: EnumNew()\n}\n\n" := by
   decide +kernel
 
 /-- `#[serde(rename = "GenNew")] struct Ge<T> { v: T }  type User = Ge<String>;` (one item per list: the
@@ -333,11 +422,12 @@ def wUserAlias : RustTypeAlias :=
     decorators := {}, isRedacted := false }
 def W_generic2 : ParsedData := { structs := [wGe], aliases := [wUserAlias] }
 
-/-- the model's Kotlin output for `W_generic2`: `data class GenNew<T>` next to `typealias User = Ge<String>` -/
+/-- the model's Kotlin output for `W_generic2`: `data class GenNew<T>` next to
+`typealias User = GenNew<String>` (was `Ge<String>` before 821da1d) -/
 theorem kotlin_text_generic :
     (Lang.Kotlin.itemsFacts {} (itemsOf (reconcileOne (renamesOf W_generic2) [] W_generic2))).bind
         (fun ds => .ok (ds.flatMap Lang.Kotlin.renderDecl)) =
-      .ok s%"typealias User = Ge<String>\n\n@Serializable\ndata class GenNew<T> (\n\tval v: T\n)\n\n" := by
+      .ok s%"typealias User = GenNew<String>\n\n@Serializable\ndata class GenNew<T> (\n\tval v: T\n)\n\n" := by
   decide +kernel
 
 /-- `#[serde(rename = "EnumNew", tag = "t", content = "c")] enum En { A {}, C }` (no payload types: the
@@ -348,11 +438,22 @@ def wEnum2 : RustEnum :=
     decorators := {}, isRecursive := false, isRedacted := false }
 def W_enum2 : ParsedData := { enums := [wEnum2] }
 
-/-- the model's Scala output (whole file) for `W_enum2`: `sealed trait EnumNew`, cases `extends En`,
-content `EnAInner`, helper `class EnumNewAInner` -/
+/-- the model's Scala output (whole file) for `W_enum2`: `sealed trait EnumNew`, cases
+`extends EnumNew`, content `EnumNewAInner`, helper `class EnumNewAInner` (were `extends En` and
+`EnAInner` before 03e02a1) -/
 theorem scala_text_enum :
     Lang.Scala.generate { package := s%"com.example" } (reconcileOne (renamesOf W_enum2) [] W_enum2) =
-      .ok s%"package com\n\npackage example {\n\n// Generated type representing the anonymous struct variant `A` of the `En` Rust enum\nclass EnumNewAInner extends Serializable\n\nsealed trait EnumNew {\n\tdef serialName: String\n}\nobject EnumNew {\n\tcase class A(c: EnAInner) extends En {\n\t\tval serialName: String = \"A\"\n\t}\n\tcase object C extends En {\n\t\tval serialName: String = \"C\"\n\t}\n}\n\n}\n" := by
+      .ok s%"package com\n\npackage example {\n\n// Generated type representing the anonymous struct variant `A` of the `En` Rust enum\nclass EnumNewAInner extends Serializable\n\nsealed trait EnumNew {\n\tdef serialName: String\n}\nobject EnumNew {\n\tcase class A(c: EnumNewAInner) extends EnumNew {\n\t\tval serialName: String = \"A\"\n\t}\n\tcase object C extends EnumNew {\n\t\tval serialName: String = \"C\"\n\t}\n}\n\n}\n" := by
+  decide +kernel
+
+/-- the open finding in the model's Go output for `W_unit` after `reconcile`: `type Un string` (go.rs
+`write_enum`, `id.original`) next to the field `U UnitNew` -/
+theorem go_text_unit :
+    ((Lang.Go.writeEnum .ascii { package := s%"proto" } wUnit [] []).bind fun (t, _) => .ok t) =
+      .ok s%"type Un string\nconst (\n\tUnP Un = \"P\"\n\tUnQ Un = \"Q\"\n)\n" ∧
+    ((reconcileOne (renamesOf W_unit) [] W_unit).structs.map fun s =>
+      (Lang.Go.writeStruct .ascii { package := s%"proto" } s []).bind fun (t, _) => .ok t) =
+      [.ok s%"type User struct {\n\tU UnitNew `json:\"u\"`\n}\n"] := by
   decide +kernel
 
 /-- Kotlin multi-file import lines carry no prefix (`write_imports`, kotlin.rs:288): with prefix `OP`
@@ -377,7 +478,7 @@ theorem getIdent_invariant (E : Ext) (ident : Option Str) (attrs : List Syn.Attr
 /-! ## non-vacuity -/
 
 /-- `C09_partial` / `C09_exact`: a program with a renamed item, in scope, without shadowing, all of
-whose references are outside the known classes — in all eight configurations -/
+whose references are outside the known class — in all eight configurations -/
 example : InScope W_good ∧ Known_shadow W_good = false ∧
     (allLangs.all fun lc => (typeItems W_good).all fun it =>
       (refs lc (renamesOf W_good) it).all fun r => !KnownRef lc W_good r) = true ∧
@@ -386,10 +487,10 @@ example : InScope W_good ∧ Known_shadow W_good = false ∧
     defName swOP (.struct wPoint) = s%"OPPointNew" :=
   ⟨W_good_inScope, by decide +kernel, by decide +kernel, by decide +kernel, by decide +kernel, by decide +kernel⟩
 
-/-- `C09_converse`: hypotheses met by the alias witness -/
-example : InScope W_alias ∧ CfgOk kt0 ∧ Known_shadow W_alias = false ∧
-    KnownRef kt0 W_alias ⟨s%"AliasNew", .type s%"Al", false⟩ = true :=
-  ⟨W_alias_inScope, cfgOk_all _ (by simp [allLangs]), by decide +kernel, by decide +kernel⟩
+/-- `C09_converse` / `C09_failures_are_go_enums`: hypotheses met by the Go enum witness -/
+example : InScope W_unit ∧ CfgOk go0 ∧ Known_shadow W_unit = false ∧
+    KnownRef go0 W_unit ⟨s%"UnitNew", .type s%"Un", false⟩ = true :=
+  ⟨W_unit_inScope, cfgOk_all _ (by simp [allLangs]), by decide +kernel, by decide +kernel⟩
 
 /-- `C09_no_renames`: a program without `serde(rename)` that has references, a generic parameter and
 a prefix -/
@@ -398,12 +499,23 @@ example : InScope ({ structs := [mkStruct s%"Point" none [] [fld s%"x" (.prim .u
       (itemId it).serdeRename = false) :=
   ⟨inScope_of _ (by decide) (by decide) (by decide) (by decide) rfl rfl, by decide⟩
 
-/-- `C09_swift_python_typescript`: Swift with a prefix on the alias witness — consistent there,
-although Kotlin is not -/
-example : isSwiftPythonTypeScript swOP = true ∧ Known_shadow W_alias = false ∧
-    hasRef swOP W_alias (.struct wUserA) s%"OPAliasNew" (.type s%"Al") false (fun _ _ _ => true) = true ∧
-    defName swOP (.alias wAlias) = s%"OPAliasNew" :=
-  ⟨rfl, by decide +kernel, by decide +kernel, by decide +kernel⟩
+/-- `C09_all_but_go`: Kotlin with a prefix on the alias witness (inconsistent there before b182a80)
+and on the tagged-enum witness (before 03e02a1) -/
+example : isGo ktOP = false ∧ Known_shadow W_alias = false ∧ Known_shadow W_enum = false ∧
+    hasRef ktOP W_alias (.struct wUserA) s%"OPAliasNew" (.type s%"Al") false (fun _ _ _ => true) = true ∧
+    defName ktOP (.alias wAlias) = s%"OPAliasNew" :=
+  ⟨rfl, by decide +kernel, by decide +kernel, by decide +kernel, by decide +kernel⟩
+
+/-- `C09_go_without_renamed_enums`: Go on the alias witness and on the generic-head witness (renamed
+alias / struct, no renamed enum) -/
+example : (∀ e ∈ W_alias.enums, e.id.renamed = e.id.original) ∧ (∀ e ∈ W_generic.enums, e.id.renamed = e.id.original) ∧
+    Known_shadow W_generic = false ∧
+    hasRef go0 W_generic (.struct wUserG) s%"GenNew" (.type s%"Ge") true (fun _ _ _ => true) = true :=
+  ⟨by simp [W_alias], by simp [W_generic], by decide +kernel, by decide +kernel⟩
+
+/-- `C09_generic_heads`: a head reference outside the known class (TypeScript, `GenNew<String>`) -/
+example : hasRef ts0 W_generic (.struct wUserG) s%"GenNew" (.type s%"Ge") true
+    (fun lc P r => !Known_def_original lc P r) = true := by decide +kernel
 
 /-- `getIdent_invariant`: `#[serde(rename = "X")]` and no attribute -/
 example : Parser.getIdent E0 (some s%"Foo") [] none = .ok ⟨s%"Foo", s%"Foo", false⟩ := by decide +kernel
